@@ -22,7 +22,6 @@ import copy
 import json
 import math
 import os
-import random
 import shutil
 import subprocess
 import sys
